@@ -110,8 +110,18 @@ impl AbstractInstructionSet {
         crate::verif_hooks::asm_pass("enter", "remove_redundant_ops", &self.function, &self.ops);
         let mut new_ops = Vec::with_capacity(self.ops.len());
 
-        let mut ops = self.ops.iter().peekable();
-        while let Some(op) = ops.next() {
+        // Where each label is, to follow unconditional jumps below.
+        let label_to_index: std::collections::HashMap<_, _> = self
+            .ops
+            .iter()
+            .enumerate()
+            .filter_map(|(idx, op)| match &op.opcode {
+                Either::Right(OrganizationalOp::Label(label)) => Some((*label, idx)),
+                _ => None,
+            })
+            .collect();
+
+        for (idx, op) in self.ops.iter().enumerate() {
             let remove = match &op.opcode {
                 Either::Left(VirtualOp::NOOP) => true,
                 Either::Left(VirtualOp::MOVE(a, b)) => a == b,
@@ -122,17 +132,57 @@ impl AbstractInstructionSet {
                 _ => false,
             };
 
-            // We also need to be sure op is redundant regarding const registers.
-            let remove = remove
-                && ops
-                    .peek()
-                    .map(|next_op| {
-                        op.def_const_registers()
-                            .intersection(&next_op.use_registers())
-                            .count()
-                            == 0
-                    })
-                    .unwrap_or(true);
+            // We also need to be sure op is redundant regarding const registers: none of the
+            // const registers it sets (e.g. NOOP and MOVE clear $of and $err) may be read by the
+            // code that follows before being set again. Walk forward from the next op, falling
+            // through labels and following unconditional jumps; the walk ends well at a return
+            // or at the end of the ops, and gives up (keeps the op) at any other control flow.
+            let remove = remove && {
+                let mut pending = op.def_const_registers();
+                let mut budget = self.ops.len();
+                let mut next_idx = idx + 1;
+                loop {
+                    if pending.is_empty() {
+                        break true;
+                    }
+                    if budget == 0 {
+                        break false;
+                    }
+                    budget -= 1;
+                    let Some(next_op) = self.ops.get(next_idx) else {
+                        break true;
+                    };
+                    if next_op
+                        .use_registers()
+                        .iter()
+                        .any(|reg| pending.contains(reg))
+                    {
+                        break false;
+                    }
+                    for def in next_op
+                        .def_const_registers()
+                        .into_iter()
+                        .chain(next_op.def_registers())
+                    {
+                        pending.remove(def);
+                    }
+                    match &next_op.opcode {
+                        Either::Right(OrganizationalOp::ReturnFromCall { .. }) => break true,
+                        Either::Right(OrganizationalOp::Jump {
+                            to,
+                            type_: JumpType::Unconditional,
+                        }) => match label_to_index.get(to) {
+                            Some(target_idx) => next_idx = *target_idx,
+                            None => break pending.is_empty(),
+                        },
+                        Either::Right(OrganizationalOp::Jump { .. })
+                        | Either::Right(OrganizationalOp::JumpToAddr(_)) => {
+                            break pending.is_empty()
+                        }
+                        _ => next_idx += 1,
+                    }
+                }
+            };
 
             if !remove {
                 log(&format!("keeping: {}\n", op));
